@@ -45,6 +45,53 @@ func runBuiltin(c BiCase) (ev map[string]any) {
 		ev["got"] = []any{"bool", okk}
 		return
 	}
+	if len(c.F) > 0 && c.F[0] == ':' {
+		// a matching predicate: all solutions, each as the bindings of the variables among the arguments
+		var args []ast.BaseTerm
+		var vars []ast.Variable
+		for _, x := range c.A {
+			t := mgjson.Term(x)
+			args = append(args, t)
+			if v, ok := t.(ast.Variable); ok {
+				vars = append(vars, v)
+			}
+		}
+		atom := ast.Atom{Predicate: ast.PredicateSym{Symbol: c.F, Arity: len(args)}, Args: args}
+		uf := unionfind.New()
+		okk, sols, err := builtin.Decide(atom, &uf)
+		ev["sols"] = []any{}
+		if err != nil {
+			ev["err"], ev["detail"] = true, err.Error()
+			return
+		}
+		if !okk {
+			return
+		}
+		var out []any
+		for _, s := range sols {
+			var bs []any
+			seen := map[string]bool{}
+			for _, v := range vars {
+				if seen[v.Symbol] {
+					continue
+				}
+				seen[v.Symbol] = true
+				if k, ok := s.Get(v).(ast.Constant); ok {
+					bs = append(bs, []any{v.Symbol, mgjson.FromConst(k)})
+				} else {
+					bs = append(bs, []any{v.Symbol, []any{"unbound"}})
+				}
+			}
+			if bs == nil {
+				bs = []any{}
+			}
+			out = append(out, bs)
+		}
+		if out != nil {
+			ev["sols"] = out
+		}
+		return
+	}
 	switch c.F {
 	case "fn:count", "fn:sum", "fn:min", "fn:max", "fn:avg", "fn:collect_distinct":
 		v := ast.Variable{Symbol: "V"}
